@@ -120,18 +120,18 @@ def run(ctx):
         return run_t(ctx)
     unused = ("DevLoopRecvUpdDup", "UpdDrain", "UpdPut", "UpdDrop", "WaitTimeout", "CloseTimeout", "CloseOnceWait")
     # ---- M: ideal spec, safety (quick: 2 values, 2 updates, 1 failure; thorough: 3 values / 3 updates / 2 failures)
-    ctx.tlc_mc(SPEC, "Republisher.tla", "MCRepublisher.cfg", timeout=1800, coverage=not q, allow_zero=unused)
+    ctx.tlc_mc(SPEC, "Republisher.tla", "MCRepublisher.cfg", timeout=7200, coverage=not q, allow_zero=unused)
     if not q:
         for cfg in ("MCRepublisherF2.cfg", "MCRepublisherV3.cfg", "MCRepublisherU3.cfg"):
-            ctx.tlc_mc(SPEC, "Republisher.tla", cfg, timeout=3600)
+            ctx.tlc_mc(SPEC, "Republisher.tla", cfg, timeout=14400)
     # ---- M: liveness of the ideal spec
-    ctx.tlc_mc(SPEC, "Republisher.tla", "MCRepublisherLiveQ.cfg" if q else "MCRepublisherLive.cfg", timeout=3600)
+    ctx.tlc_mc(SPEC, "Republisher.tla", "MCRepublisherLiveQ.cfg" if q else "MCRepublisherLive.cfg", timeout=14400)
     # ---- M (thorough): as built: the remaining invariants hold, and each deviation is what breaks its property
     if not q:
-        ctx.tlc_mc(SPEC, "Republisher.tla", "MCRepublisherAsBuilt.cfg", timeout=1800)
+        ctx.tlc_mc(SPEC, "Republisher.tla", "MCRepublisherAsBuilt.cfg", timeout=7200)
         for cfg, want in (("MCRepublisherDev1.cfg", "NotStuck"), ("MCRepublisherDev2.cfg", "WaitPubCovers"),
                           ("MCRepublisherDev2Close.cfg", "ClosePublishesPending"), ("MCRepublisherLiveDev1.cfg", "Temporal")):
-            r = ctx.tlc_mc(SPEC, "Republisher.tla", cfg, timeout=1800, expect_violation=want)
+            r = ctx.tlc_mc(SPEC, "Republisher.tla", cfg, timeout=7200, expect_violation=want)
             if not (r["violated"] and want in r["violated"]):
                 ctx.broken("model sensitivity: %s should violate %s but gave %s" % (cfg, want, r["violated"]))
     ctx.cov["exhaustive"] = True
@@ -142,7 +142,7 @@ def run_t(ctx):
     q = ctx.quick
     binp = ctx.go_build(PKG, ["mfs/zz_verif_C21_test.go"])
     allrecs = []
-    for scen, to in (("dev1", 900), ("stress", 1800), ("random", 3600)):
+    for scen, to in (("dev1", 3600), ("stress", 7200), ("random", 14400)):
         recs, out, rc = ctx.go_run(binp, TEST, pkg=PKG, mode="record", env={"C21_SCEN": scen}, timeout=900)
         if rc != 0 or not recs:
             ctx.broken("record driver (%s) died: rc=%s %s" % (scen, rc, out[-1500:]))
@@ -155,4 +155,4 @@ def run_t(ctx):
         else:
             validate(ctx, recs, scen, to, negative=(scen == "random"), minimal=True)
     if q:
-        validate(ctx, allrecs, "all", 3600, negative=True)
+        validate(ctx, allrecs, "all", 7200, negative=True)
